@@ -533,7 +533,36 @@ func c12R3(c *Ctx, r *Report) {
 				_, isNow := isCallTo(call.Call.Args[0], "time.Now")
 				return isNow
 			}}
-			p := ReachTargetAvoiding(fn, mu, []Guard{noExp, noExp2, notPast}, nil)
+			// the same test spelled with len(): len(s) == 0 / len(s) != 0 / len(s) > 0 / 0 < len(s)
+			isLenOfParam := func(v ssa.Value) bool {
+				call, ok := v.(*ssa.Call)
+				if !ok {
+					return false
+				}
+				b, ok := call.Call.Value.(*ssa.Builtin)
+				return ok && b.Name() == "len" && len(call.Call.Args) == 1 && hasOrigin(c.Origins(call.Call.Args[0]), "call:net/url.Values.Get")
+			}
+			isZero := func(v ssa.Value) bool { k, ok := constInt(v); return ok && k == 0 }
+			lenEmpty := Guard{Name: "len(expires parameter) == 0", Truthy: true, Match: func(b ssa.Value) bool {
+				bo, ok := b.(*ssa.BinOp)
+				return ok && bo.Op == token.EQL && ((isLenOfParam(bo.X) && isZero(bo.Y)) || (isLenOfParam(bo.Y) && isZero(bo.X)))
+			}}
+			lenNonEmpty := Guard{Name: "not(len(expires parameter) > 0)", Truthy: false, Match: func(b ssa.Value) bool {
+				bo, ok := b.(*ssa.BinOp)
+				if !ok {
+					return false
+				}
+				switch bo.Op {
+				case token.NEQ:
+					return (isLenOfParam(bo.X) && isZero(bo.Y)) || (isLenOfParam(bo.Y) && isZero(bo.X))
+				case token.GTR:
+					return isLenOfParam(bo.X) && isZero(bo.Y)
+				case token.LSS:
+					return isLenOfParam(bo.Y) && isZero(bo.X)
+				}
+				return false
+			}}
+			p := ReachTargetAvoiding(fn, mu, []Guard{noExp, noExp2, lenEmpty, lenNonEmpty, notPast}, nil)
 			r.Check(p == nil, rule, cons+" / expired keys are not stored", "a key with an expiry is stored only if the expiry has not passed", "a key can be stored without its expiry being compared with the current time", c.pathString(p)...)
 			r.Check(held[in]["global:api.apiKeysLock"], rule, cons+" / under key lock", "stored with apiKeysLock held", "apiKeys written without apiKeysLock")
 			// stored permissions come from the parsed values
